@@ -2,6 +2,22 @@ from .runner import M
 
 UP = "src/allmydata/immutable/upload.py"
 EN = "src/allmydata/immutable/encode.py"
+LY = "src/allmydata/immutable/layout.py"
+
+# WriteBucketProxy.close (C06.8 / C06.9)
+CLOSE_IF = ("        if self._write_buffer.get_queued_bytes() > 0:\n"
+            "            d = self._actually_write()\n"
+            "        else:\n"
+            "            # No data queued, don't send empty string write.\n"
+            "            d = defer.succeed(True)\n")
+CLOSE_TAIL = ("        d.addCallback(lambda _: self._rref.callRemote(\"close\"))\n"
+              "        return d\n")
+CLOSE_GUARD = "        if self._write_buffer.get_queued_bytes() > 0:\n            d = self._actually_write()"
+QW_TAIL = ("            return self._actually_write()\n"
+           "        else:\n"
+           "            return defer.succeed(False)\n")
+CT_TAIL = ("        d.addCallback(lambda _: self._really_put_crypttext_hashes(hashes))\n"
+           "        return d\n")
 
 MUTANTS = [
     # ---- C06.1 success gate of server selection
@@ -124,6 +140,83 @@ MUTANTS = [
       "            return f.value.subFailure\n        return f\n", "            return f.value.subFailure\n", "C06.7"),
     M("placed-is-all-shares", EN,
       "        self._shares_placed = set(self.landlords.keys())", "        self._shares_placed = set(range(self.num_shares))", "C06.7"),
+    # ---- C06.8 the proxy hands every remote outcome to its caller
+    M("close-pipelined-behind-dropped-write", LY, CLOSE_IF + CLOSE_TAIL,        # seeded C06-A
+      "        if self._write_buffer.get_queued_bytes() > 0:\n"
+      "            self._actually_write()\n"
+      "        return self._rref.callRemote(\"close\")\n", "C06.8"),
+    M("close-on-both-outcomes", LY, CLOSE_TAIL,
+      "        d.addBoth(lambda _: self._rref.callRemote(\"close\"))\n        return d\n", ["C06.8", "C06.9"]),
+    M("final-write-failure-only-logged", LY, CLOSE_GUARD,
+      CLOSE_GUARD + "\n            d.addErrback(log.err, \"final write of an immutable share failed\")", "C06.8"),
+    M("batched-write-fired-and-forgotten", LY, QW_TAIL,
+      "            self._actually_write()\n        return defer.succeed(False)\n", "C06.8"),
+    M("crypttext-hashes-not-awaited", LY, CT_TAIL,
+      "        d.addCallback(lambda _: self._really_put_crypttext_hashes(hashes))\n        return defer.succeed(True)\n",
+      "C06.8"),
+    M("close-through-plain-deferredlist", LY, CLOSE_TAIL,
+      "        d.addCallback(lambda _: self._rref.callRemote(\"close\"))\n        return defer.DeferredList([d])\n",
+      "C06.8"),
+    M("put-block-returns-fresh-success", LY,
+      "                         len(data), self._block_size)\n        return self._queue_write(offset, data)",
+      "                         len(data), self._block_size)\n        self._queue_write(offset, data)\n"
+      "        return defer.succeed(None)", "C06.8"),
+    M("benign-close-chained-return", LY, CLOSE_TAIL,
+      "        return d.addCallback(lambda _: self._rref.callRemote(\"close\"))\n", None),
+    M("benign-close-named-callback", LY, CLOSE_TAIL,
+      "        def _send_close(_ign):\n            return self._rref.callRemote(\"close\")\n"
+      "        d.addCallback(_send_close)\n        return d\n", None),
+    M("benign-close-local-renamed", LY, CLOSE_IF + CLOSE_TAIL,
+      "        if self._write_buffer.get_queued_bytes() > 0:\n"
+      "            flushed = self._actually_write()\n"
+      "        else:\n"
+      "            flushed = defer.succeed(True)\n"
+      "        flushed.addCallback(lambda _: self._rref.callRemote(\"close\"))\n"
+      "        return flushed\n", None),
+    M("benign-write-failure-logged-and-passed-on", LY, CLOSE_GUARD,
+      CLOSE_GUARD + "\n            def _note(f):\n                log.msg(\"final write failed\")\n"
+      "                return f\n            d.addErrback(_note)", None),
+    M("benign-queue-write-hoisted", LY, QW_TAIL,
+      "            d = self._actually_write()\n            return d\n        return defer.succeed(False)\n", None),
+    # ---- C06.9 remote close only after the final write succeeded
+    M("close-pipelined-both-gathered", LY, CLOSE_TAIL,
+      "        d2 = self._rref.callRemote(\"close\")\n        return defer.gatherResults([d, d2])\n", "C06.9"),
+    M("close-does-not-flush", LY, CLOSE_IF, "        d = defer.succeed(True)\n", "C06.9"),
+    M("flush-only-when-batch-full", LY,
+      "        if self._write_buffer.get_queued_bytes() > 0:\n            d = self._actually_write()",
+      "        if self._write_buffer.get_queued_bytes() >= self._write_buffer._batch_size:\n            d = self._actually_write()",
+      "C06.9"),
+    M("close-chained-on-unrelated-deferred", LY, CLOSE_TAIL,
+      "        d2 = defer.succeed(True)\n        d2.addCallback(lambda _: self._rref.callRemote(\"close\"))\n"
+      "        return defer.gatherResults([d, d2])\n", "C06.9"),
+    M("close-never-sent", LY, CLOSE_TAIL, "        return d\n", "C06.9"),
+    M("benign-guard-not-equal", LY, CLOSE_GUARD,
+      "        if self._write_buffer.get_queued_bytes() != 0:\n            d = self._actually_write()", None),
+    M("benign-guard-truthiness", LY, CLOSE_GUARD,
+      "        if self._write_buffer.get_queued_bytes():\n            d = self._actually_write()", None),
+    M("benign-guard-local-and-inverted", LY, CLOSE_IF,
+      "        queued = self._write_buffer.get_queued_bytes()\n"
+      "        if queued == 0:\n"
+      "            d = defer.succeed(True)\n"
+      "        else:\n"
+      "            d = self._actually_write()\n", None),
+    M("benign-close-as-coroutine", LY, CLOSE_IF + CLOSE_TAIL,
+      "        if self._write_buffer.get_queued_bytes() > 0:\n"
+      "            yield self._actually_write()\n"
+      "        res = yield self._rref.callRemote(\"close\")\n"
+      "        return res\n", None,
+      edits=[(LY, "    def close(self):", "    @defer.inlineCallbacks\n    def close(self):")]),
+    M("coroutine-close-before-flush", LY, CLOSE_IF + CLOSE_TAIL,
+      "        res = yield self._rref.callRemote(\"close\")\n"
+      "        if self._write_buffer.get_queued_bytes() > 0:\n"
+      "            yield self._actually_write()\n"
+      "        return res\n", "C06.9",
+      edits=[(LY, "    def close(self):", "    @defer.inlineCallbacks\n    def close(self):")]),
+    M("benign-flush-as-conditional-expression", LY, CLOSE_IF,
+      "        d = self._actually_write() if self._write_buffer.get_queued_bytes() > 0 else defer.succeed(True)\n", None),
+    M("header-write-replaced-by-fresh-success", LY, "        return self._queue_write(0, self._offset_data)",
+      "        d = self._queue_write(0, self._offset_data)\n        return defer.succeed(d is not None)", "C06.8"),
+    M("vanish-proxy-close", LY, "    def close(self):", "    def finish(self):", "ANALYSIS-ERROR"),
     # ---- vanished anchor
     M("vanish-remove-shareholder", EN,
       "    def _remove_shareholder(self, why, shareid, where):", "    def _drop_shareholder(self, why, shareid, where):",
